@@ -665,6 +665,10 @@ func (o *String) UnmarshalBinary(data []byte) error {
 		return nil
 	}
 
+	if size > int64(len(data)) {
+		return errors.New("invalid ugo.String data size")
+	}
+
 	ub := 1 + offset + int(size)
 	if len(data) < ub {
 		return errors.New("invalid ugo.String data size")
@@ -705,6 +709,10 @@ func (o *Bytes) UnmarshalBinary(data []byte) error {
 
 	if size <= 0 {
 		return nil
+	}
+
+	if size > int64(len(data)) {
+		return errors.New("invalid ugo.Bytes data size")
 	}
 
 	ub := 1 + offset + int(size)
